@@ -195,6 +195,16 @@ def Stmt.defaultReject (s : Stmt) : Bool :=
     | [cs] => isDefaultReject cs
     | _ => false
 
+/-- a child of `<then>` that is neither `<reject/>` nor a comment -/
+def ThenItem.isDirty (c : ThenItem) : Bool := !(c.isReject || c.isComment)
+
+/-- "no other content": the body holds nothing but at most one name, at most one `then` and
+comments; `then` holds nothing but `<reject/>` and comments (hypothesis of the restricted theorem
+for the unrepaired code) -/
+def Stmt.plain (s : Stmt) : Bool :=
+  !s.body.any BodyItem.isOther && decide (s.names.length ≤ 1) && decide (s.thens.length ≤ 1) &&
+    s.thens.all fun cs => !cs.any ThenItem.isDirty
+
 /-- the (name, expression) pair the agent has to manage for `s`, if any -/
 def Stmt.selected (parseExpr unescape : String → Option String) (s : Stmt) : Option (String × FExpr) :=
   if s.inactive then none
